@@ -1,7 +1,13 @@
 package main
 
 import (
+	"fmt"
+	"go/token"
+	"go/types"
+	"sort"
 	"strings"
+
+	"golang.org/x/tools/go/ssa"
 )
 
 func init() {
@@ -51,4 +57,139 @@ func rulesC18(c *Ctx, r *Report) {
 	r.floor("YD1", ns, 17, "callback call sites (31 today; at least one per iterator function)")
 	r.floor("YD1-functions", nf, 14, "iterator functions (17 today; the 14 exported entry points are anchored by name)")
 	r.floor("YD2", n2, 6, "error items in fasta/fastq/bed/newick: iter (2), File open errors (4), bed/newick Reader (2)")
+	// what the items delivered before the stop depend on: private working state, element pointers that stay valid
+	var lits []string
+	for _, y := range yds {
+		if strings.HasSuffix(y.f.name, "_test") || len(y.sites) == 0 {
+			continue
+		}
+		lits = append(lits, y.f.name)
+	}
+	rulesReentrantAll(c, r)
+	if fe := c.fn("trie", "(*Trie).ForEach"); fe != nil {
+		ruleStaleElem(c, r, fe)
+	}
+	if tr := c.role("newick.traverse"); tr != nil && len(tr.AnonFuncs) == 1 {
+		ruleStaleElem(c, r, tr.AnonFuncs[0])
+	}
+	rulesOpenedHandle(c, r)
+	_ = lits
+}
+
+// rulesReentrantAll (REENTRANT): no iterator literal of the module assigns to a variable captured from the
+// function that created it — running the same iterator value again (after a stop, nested) starts afresh.
+func rulesReentrantAll(c *Ctx, r *Report) {
+	n := 0
+	for _, f := range c.moduleFuncs() {
+		if f.Parent() == nil || strings.HasSuffix(funcPkgPath(f), "_test") || f.Synthetic != "" {
+			continue
+		}
+		// an iterator literal: has a func(...) bool parameter
+		isIter := false
+		for _, p := range f.Params {
+			if sg, ok := p.Type().Underlying().(*types.Signature); ok && sg.Results().Len() == 1 {
+				if bt, ok := sg.Results().At(0).Type().Underlying().(*types.Basic); ok && bt.Kind() == types.Bool {
+					isIter = true
+				}
+			}
+		}
+		if !isIter {
+			continue
+		}
+		n++
+		var bad []string
+		fv := map[ssa.Value]bool{}
+		for _, v := range f.FreeVars {
+			fv[v] = true
+		}
+		instrs(f, func(in ssa.Instruction) {
+			if st, ok := in.(*ssa.Store); ok && fv[st.Addr] {
+				bad = append(bad, "store to captured variable "+st.Addr.Name()+" at "+c.pos(st.Pos()))
+			}
+		})
+		r.check(len(bad) == 0, "REENTRANT", fname(f), "working state is local", c.pos(f.Pos()), "the iterator body never assigns to a captured variable: a run that was stopped leaves nothing behind for the next run of the same iterator value",
+			"the iterator body assigns to variables captured from outside ("+strings.Join(bad, "; ")+"): after an early stop the next run of the same iterator value starts from leftover state")
+	}
+	r.floor("REENTRANT", n, 10, "iterator literals in the module (14 today)")
+}
+
+// rulesOpenedHandle (NIL-HANDLE): what aio.Open returned is touched (deferred Close included) only where its
+// error is known to be nil — on failure the handle is nil and any method call on it panics when it runs.
+func rulesOpenedHandle(c *Ctx, r *Report) {
+	n := 0
+	for _, f := range formatFuncs(c) {
+		instrs(f, func(in ssa.Instruction) {
+			call, ok := in.(*ssa.Call)
+			if !ok || !fnIs(call.Call.StaticCallee(), gostuffPath+"/aio", "Open") {
+				return
+			}
+			var h, e *ssa.Extract
+			for _, ref := range *call.Referrers() {
+				if ex, ok := ref.(*ssa.Extract); ok {
+					if ex.Index == 0 {
+						h = ex
+					} else {
+						e = ex
+					}
+				}
+			}
+			if h == nil || e == nil {
+				return
+			}
+			n++
+			var bad []string
+			for _, use := range *h.Referrers() {
+				if _, dbg := use.(*ssa.DebugRef); dbg {
+					continue
+				}
+				if !nilEdgeOfDominates(e, use.Block()) {
+					bad = append(bad, c.pos(use.Pos()))
+				}
+			}
+			sort.Strings(bad)
+			r.check(len(bad) == 0, "NIL-HANDLE", fname(f), "opened file used only after the error check", c.pos(call.Pos()),
+				"every use of the opened file (deferred Close included) lies behind err == nil", fmt.Sprintf("the opened file is used at %v where the open error has not been ruled out: when the path cannot be opened the handle is nil and the (deferred) call panics after the error item was delivered", bad))
+		})
+	}
+	r.floor("NIL-HANDLE", n, 4, "aio.Open call sites in the File functions (6 today)")
+}
+
+// nilEdgeOfDominates: target is reachable only through the nil edge of a comparison of errV with nil.
+func nilEdgeOfDominates(errV ssa.Value, target *ssa.BasicBlock) bool {
+	for _, ref := range *errV.Referrers() {
+		bo, ok := ref.(*ssa.BinOp)
+		if !ok || (bo.Op != token.NEQ && bo.Op != token.EQL) || !(isNilConst(bo.Y) || isNilConst(bo.X)) {
+			continue
+		}
+		for _, r2 := range *bo.Referrers() {
+			iff, ok := r2.(*ssa.If)
+			if !ok {
+				continue
+			}
+			b := iff.Block()
+			nilSucc, errSucc := b.Succs[1], b.Succs[0]
+			if bo.Op == token.EQL {
+				nilSucc, errSucc = errSucc, nilSucc
+			}
+			if len(nilSucc.Preds) == 1 && nilSucc.Dominates(target) && !blockReaches(errSucc, target) && errSucc != target {
+				return true
+			}
+		}
+	}
+	return false
+}
+
+// rulesYDPkg: YD1 and YD2 for the iterator functions of one package.
+func rulesYDPkg(c *Ctx, r *Report, rel string) {
+	n := 0
+	for _, y := range allYD(c.Pkgs) {
+		if strings.HasSuffix(y.f.name, "_test") || relPkg(y.f.pkg.PkgPath) != rel {
+			continue
+		}
+		n++
+		r.analysed(y.f.name)
+		y.ruleYD1(c, r, "YD1")
+		y.ruleYD2(c, r, "YD2", nil)
+	}
+	r.floor("YD1-"+rel, n, 2, "iterator functions of "+rel)
 }
